@@ -124,6 +124,12 @@ pub struct TimeCase {
     pub readers: Vec<Vec<bool>>,
     /// Step between consecutive time values: whole seconds, nanoseconds.
     pub step: (u32, u32),
+    /// Seconds of the first value (negative: before the epoch; the values may cross the epoch).
+    #[serde(default = "time_base")]
+    pub base: i64,
+}
+fn time_base() -> i64 {
+    1_000
 }
 
 #[derive(Clone, Debug, Serialize, Deserialize, PartialEq)]
